@@ -679,6 +679,43 @@ type c08prov3 struct {
 	rd    *redis.MockHandler
 	mg    *mongodb.MockHandler
 	which int
+	// scribble: after an operation's result has been rendered, the caller changes what it was
+	// handed (and what it handed in), nested values included, the way a request changes its own
+	// copy of a record. Nothing of that may reach the store: only operations carry effects.
+	// Off in the model's replays.
+	scribble bool
+}
+
+func c08scribble(v interface{}) {
+	switch x := v.(type) {
+	case map[string]interface{}:
+		for _, inner := range x {
+			c08scribble(inner)
+		}
+		if _, nested := x["n"]; nested {
+			x["n"] = 999
+			x["scribbled"] = true
+		}
+	case []map[string]interface{}:
+		for _, e := range x {
+			c08scribble(e)
+		}
+	case []interface{}:
+		for i, e := range x {
+			c08scribble(e)
+			if _, isStr := e.(string); isStr {
+				x[i] = "scribbled"
+			}
+		}
+	}
+}
+
+func (pv *c08prov3) done(vals ...interface{}) {
+	if pv.scribble {
+		for _, v := range vals {
+			c08scribble(v)
+		}
+	}
 }
 
 func c08newProv(which int) *c08prov3 {
@@ -697,18 +734,34 @@ func c08str(v interface{}) string {
 func (pv *c08prov3) apply(o c08op) string {
 	switch o.Kind {
 	case "db.create":
-		r := pv.db.Table("users").Create(map[string]interface{}{"name": o.A})
-		return c08str(r)
+		in := map[string]interface{}{"name": o.A, "meta": map[string]interface{}{"n": 0}, "tags": []interface{}{"t-" + o.A}}
+		r := pv.db.Table("users").Create(in)
+		out := c08str(r)
+		pv.done(r, in)
+		return out
 	case "db.get":
-		return c08str(pv.db.Table("users").Get(o.N))
+		r := pv.db.Table("users").Get(o.N)
+		out := c08str(r)
+		pv.done(r)
+		return out
 	case "db.update":
-		return c08str(pv.db.Table("users").Update(o.N, map[string]interface{}{"name": o.A}))
+		in := map[string]interface{}{"name": o.A, "extra": map[string]interface{}{"n": 1}}
+		r := pv.db.Table("users").Update(o.N, in)
+		out := c08str(r)
+		pv.done(r, in)
+		return out
 	case "db.delete":
 		return c08str(pv.db.Table("users").Delete(o.N))
 	case "db.all":
-		return c08str(pv.db.Table("users").All())
+		r := pv.db.Table("users").All()
+		out := c08str(r)
+		pv.done(r)
+		return out
 	case "db.filter":
-		return c08str(pv.db.Table("users").Filter("name", o.A))
+		r := pv.db.Table("users").Filter("name", o.A)
+		out := c08str(r)
+		pv.done(r)
+		return out
 	case "db.length":
 		return c08str(pv.db.Table("users").Length())
 	case "db.nextid":
@@ -736,7 +789,9 @@ func (pv *c08prov3) apply(o c08op) string {
 		return c08str([]interface{}{v, err != nil})
 	case "r.hgetall":
 		v, err := pv.rd.HGetAll(o.A)
-		return c08str([]interface{}{v, err != nil})
+		out := c08str([]interface{}{v, err != nil})
+		pv.done(map[string]interface{}{"n": 0, "h": v})
+		return out
 	case "r.lpush":
 		v, err := pv.rd.LPush(o.A, o.B)
 		return c08str([]interface{}{v, err != nil})
@@ -748,7 +803,9 @@ func (pv *c08prov3) apply(o c08op) string {
 		return c08str([]interface{}{v, err != nil})
 	case "r.lrange":
 		v, err := pv.rd.LRange(o.A, 0, -1)
-		return c08str([]interface{}{v, err != nil})
+		out := c08str([]interface{}{v, err != nil})
+		pv.done(v)
+		return out
 	case "r.sadd":
 		v, err := pv.rd.SAdd(o.A, o.B)
 		return c08str([]interface{}{v, err != nil})
@@ -761,20 +818,33 @@ func (pv *c08prov3) apply(o c08op) string {
 		sort.Strings(ss) // a set has no order
 		return c08str(ss)
 	case "m.insert":
-		v, err := pv.mg.Collection("docs").InsertOne(map[string]interface{}{"batch": o.A, "part": 0})
-		return c08str([]interface{}{v, err != nil})
+		in := map[string]interface{}{"batch": o.A, "part": 0, "meta": map[string]interface{}{"n": 0}, "tags": []interface{}{"t-" + o.A}}
+		v, err := pv.mg.Collection("docs").InsertOne(in)
+		out := c08str([]interface{}{v, err != nil})
+		pv.done(in)
+		return out
 	case "m.insertmany":
-		v, err := pv.mg.Collection("docs").InsertMany([]map[string]interface{}{{"batch": o.A, "part": 1}, {"batch": o.A, "part": 2}})
-		return c08str([]interface{}{v, err != nil})
+		in := []map[string]interface{}{{"batch": o.A, "part": 1, "meta": map[string]interface{}{"n": 0}}, {"batch": o.A, "part": 2}}
+		v, err := pv.mg.Collection("docs").InsertMany(in)
+		out := c08str([]interface{}{v, err != nil})
+		pv.done(in)
+		return out
 	case "m.find":
 		v, err := pv.mg.Collection("docs").Find(map[string]interface{}{})
-		return c08str([]interface{}{v, err != nil})
+		out := c08str([]interface{}{v, err != nil})
+		pv.done(v)
+		return out
 	case "m.findone":
 		v, err := pv.mg.Collection("docs").FindOne(map[string]interface{}{"batch": o.A})
-		return c08str([]interface{}{v, err != nil})
+		out := c08str([]interface{}{v, err != nil})
+		pv.done(v)
+		return out
 	case "m.update":
-		v, err := pv.mg.Collection("docs").UpdateOne(map[string]interface{}{"batch": o.A}, map[string]interface{}{"seen": o.B})
-		return c08str([]interface{}{v, err != nil})
+		in := map[string]interface{}{"seen": o.B, "extra": map[string]interface{}{"n": 1}}
+		v, err := pv.mg.Collection("docs").UpdateOne(map[string]interface{}{"batch": o.A}, in)
+		out := c08str([]interface{}{v, err != nil})
+		pv.done(in)
+		return out
 	case "m.updatemany":
 		v, err := pv.mg.Collection("docs").UpdateMany(map[string]interface{}{"batch": o.A}, map[string]interface{}{"seen": o.B})
 		return c08str([]interface{}{v, err != nil})
@@ -826,6 +896,10 @@ func c08genOp(s *sim.Sim, which int, n *int) c08op {
 func c08Providers(s *sim.Sim, p *sim.Params) {
 	which := s.Choose(sim.SWork, 3)
 	pv := c08newProv(which)
+	pv.scribble = s.Choose(sim.SWork, 2) == 0
+	if pv.scribble {
+		s.Probe("callers-change-what-they-were-handed")
+	}
 	var sample []string
 	defer func() { s.Note("sample", sample) }()
 	sample = append(sample, fmt.Sprintf("mode=providers provider=%s", []string{"mock database", "mock redis", "mock mongodb"}[which]))
